@@ -278,6 +278,75 @@ func ruleC10Recorded(p *Program, r *Run) {
 		}
 	}
 	r.Floor("C10/recorded", 80)
+	ruleC10Initialised(p, r, isNodeStruct)
+}
+
+// ruleC10Initialised: a Span field that a production leaves out of the node literal is the zero span [0,0), which
+// IsValid() accepts as a real position at the start of the source. Every Span field must be given in the literal
+// (a token span or nullSpan()) or be assigned in the same production.
+func ruleC10Initialised(p *Program, r *Run, isNodeStruct func(types.Type) bool) {
+	pkg := p.Parser
+	info := pkg.TypesInfo
+	spanT := p.spanType()
+	for _, fd := range AllFuncs(pkg) {
+		if !strings.HasSuffix(p.Fset.Position(fd.Pos()).Filename, "parser.go") {
+			continue
+		}
+		fn := FuncName(pkg, fd)
+		n := 0
+		ast.Inspect(fd.Body, func(x ast.Node) bool {
+			cl, ok := x.(*ast.CompositeLit)
+			if !ok || !isNodeStruct(info.TypeOf(cl)) {
+				return true
+			}
+			st := StructOf(info.TypeOf(cl))
+			given := map[string]bool{}
+			for _, el := range cl.Elts {
+				if kv, ok := el.(*ast.KeyValueExpr); ok {
+					if id, ok := kv.Key.(*ast.Ident); ok {
+						given[id.Name] = true
+					}
+				}
+			}
+			// the variable the literal is bound to
+			var bound types.Object
+			par := p.Parent(cl)
+			if u, ok := par.(*ast.UnaryExpr); ok {
+				par = p.Parent(u)
+			}
+			if as, ok := par.(*ast.AssignStmt); ok && len(as.Lhs) == 1 {
+				bound = objOf(info, as.Lhs[0])
+			}
+			n++
+			var missing []string
+			for i := 0; i < st.NumFields(); i++ {
+				f := st.Field(i)
+				if !types.Identical(f.Type(), spanT) || given[f.Name()] {
+					continue
+				}
+				assigned := false
+				if bound != nil {
+					ast.Inspect(fd.Body, func(y ast.Node) bool {
+						if as, ok := y.(*ast.AssignStmt); ok {
+							for _, l := range as.Lhs {
+								if fieldSel(info, l, bound) == f {
+									assigned = true
+								}
+							}
+						}
+						return true
+					})
+				}
+				if !assigned {
+					missing = append(missing, f.Name())
+				}
+			}
+			key := fmt.Sprintf("%s %s literal #%d: every span field initialised", fn, TypeStr(info.TypeOf(cl)), n)
+			r.Check(len(missing) == 0, "C10/initialised", key, p.Pos(cl.Pos()), "each Span field is set in the literal (token span or nullSpan()) or assigned in this production", fmt.Sprintf("span field(s) %v are neither set in the literal nor assigned in this production: they stay [0,0), which counts as a valid position at the start of the source, so the node's extent reaches back to offset 0", missing))
+			return true
+		})
+	}
+	r.Floor("C10/initialised", 25)
 }
 
 func ruleC10Errors(p *Program, r *Run) {
